@@ -132,7 +132,7 @@ var props = map[string]propCfg{
 	"C10": {Focus: "C10", Arms: []string{"clean", "startfault", "clean", "prefetch", "cli", "burst"}, Probes: []string{"c10_cli_unknown_key_rejected", "c10_cli_control_started", "c10_forward_checked", "c10_reject", "c10_refused"}},
 	"C11": {Focus: "C11", Arms: []string{"clean", "clean", "burst"}, Probes: []string{"c10_forward_checked", "c11_matched", "c11_unmatched"}},
 	"C12": {Focus: "C12", Arms: []string{"clean", "prefetch", "overload", "tight"}, Probes: []string{"c12_client_opt_checked", "c12_upstream_opt_checked", "c12_ecs_checked"}},
-	"C13": {Focus: "C13", Arms: []string{"clean", "overload"}, Probes: []string{"c13_conn_checked", "c13_pipelined", "c13_overload"}},
+	"C13": {Focus: "C13", Arms: []string{"clean", "overload"}, Probes: []string{"c13_conn_checked", "c13_pipelined", "c13_overload", "c13_within_limit_checked"}},
 }
 
 func mix(x uint64) uint64 {
